@@ -164,6 +164,60 @@ func c08Step(m *ref.Matcher, tree route.Tree, trie *ref.Trie, e c08Entry) (verdi
 	return "accept", "", ""
 }
 
+// c08DeepTexts: routes of four to eight bind-carrying segments that share long prefixes and differ in the
+// names further down (bind names are checked along ONE route; what a sibling branch is called is no
+// business of a route); some reuse a name along their own path and must be refused.
+var c08DeepTexts = []string{"/{a}/{b}/{c}/{d}/{e}", "/{a}/{b}/{c}/{f}/{g}/s", "/{a}/{b}/{c}/{d}/{f}/r", "/{a}/{b}/{c}/{d}/{d}/r",
+	"/{a}/{b}/{c}/{f}/{f}", "/{a}/{b}/{c}/{d}", "/{a}/{b}/{c}/{f}/{a}/t", "/{a}/{b}/{x}/{d}/{e}/{g}/u", "/{a}/{b}/{c}/{d}/{e}/{f}/{g}/{h}",
+	"/{a}/{b}/{c}/{e}/{d}/v", "/{a}/{b}/{c}/{g}/{f}/{d}/{e}/w", "/{a}/{b}/{c}/{d}/{g}/{g}"}
+
+// c08Deep: every history of three distinct deep routes (rejected registrations stay in the history: they
+// must leave nothing behind), the verdict of each registration compared with the reference validator.
+func c08Deep(r *core.Run, p *route.Parser) {
+	var es []c08Entry
+	for _, t := range c08DeepTexts {
+		e := c08Entry{Text: t}
+		e.Ref, e.Gram, e.Determined = ref.Parse(t)
+		if ast, err := p.Parse(t); err == nil {
+			e.AST = ast
+		}
+		es = append(es, e)
+	}
+	n := len(es)
+	r.Bounds["deep_histories"] = fmt.Sprintf("every ordered triple of %d distinct deep routes", n)
+	r.Parallel(func(w, nw int, l *core.Local) {
+		m := ref.NewMatcher()
+		for c := w; c < n*n*n; c += nw {
+			i, j, k := c/(n*n), (c/n)%n, c%n
+			if i == j || j == k || i == k {
+				continue
+			}
+			tree, trie := route.NewTree(), ref.NewTrie()
+			var hist []string
+			l.States++
+			for step, x := range []int{i, j, k} {
+				l.Evals++
+				l.Transitions++
+				l.Traces++
+				l.NonTrivial++
+				v, bad, key := c08Step(m, tree, trie, es[x])
+				if bad != "" {
+					l.Class("mismatch")
+					l.Violate("tree/"+key+"/deep-history", bad+fmt.Sprintf(" [registered %q, candidate %q]", hist, es[x].Text), c08Case{Registered: append([]string{}, hist...), Candidate: es[x].Text})
+					break
+				}
+				l.Class("candidate:" + v)
+				if v == "reject" {
+					hist = append(hist, es[x].Text+" (rejected)")
+				} else {
+					hist = append(hist, es[x].Text)
+				}
+				_ = step
+			}
+		}
+	})
+}
+
 func c08Shape(r ref.Route) string {
 	var parts []string
 	for _, s := range r.Segs {
@@ -186,7 +240,7 @@ func c08Run(r *core.Run) {
 		panic(err)
 	}
 	cat := c08Catalogue(p)
-	r.Rule = "engine E over histories: 0..2 routes that register successfully followed by one candidate, all over a catalogue of well-formed corners, every ill-formed category of the statement, ungrammatical texts and unclassified shapes; oracle = reference validator over the forms already registered; accepted candidates must be reachable by a generated instance of each form (or lose only to a higher-priority route); non-trivial = history whose candidate verdict depends on what was registered before it (verdict differs from the candidate's verdict on an empty tree) or candidate ill-formed on its own"
+	r.Rule = "engine E over histories: 0..2 routes that register successfully followed by one candidate, all over a catalogue of well-formed corners, every ill-formed category of the statement, ungrammatical texts and unclassified shapes; plus every ordered triple of twelve deep routes that share long prefixes; oracle = reference validator over the forms already registered; accepted candidates must be reachable by a generated instance of each form (or lose only to a higher-priority route); non-trivial = history whose candidate verdict depends on what was registered before it (verdict differs from the candidate's verdict on an empty tree) or candidate ill-formed on its own"
 	r.Assumptions = []string{"shapes outside the statement's categories ({a: literal}, match-all with neighbours) get no verdict and are counted", "a failed registration ends a history (what happens after a registration panic is not part of the property)"}
 	r.SetBudget(70 * time.Second)
 	if r.Thorough() {
@@ -306,6 +360,8 @@ func c08Run(r *core.Run) {
 			}
 		}
 	})
+
+	c08Deep(r, p)
 
 	// flame level: methods, panics
 	methods := []string{"GET", "POST", "PUT", "DELETE", "PATCH", "OPTIONS", "HEAD", "CONNECT", "TRACE", "*", "get", "BREW", "", "GET,POST", " GET"}
